@@ -15,6 +15,10 @@ def key(shape, e):
         return f"({e} as u32)"
     if shape == "&u16":
         return f"(*{e} as u32)"
+    if shape == "char":
+        return f"(({e} as u32) - 0x60)"
+    if shape == "str":
+        return f"({e}.len() as u32)"
     if shape[0] == "enum":
         return f"(({e}.0 as u32).wrapping_mul(31).wrapping_add({key(shape[1], e + '.1')}))"
     if shape[0] == "zip":
@@ -27,6 +31,10 @@ def tyname(shape):
         return "u16"
     if shape == "&u16":
         return "&u16"
+    if shape == "char":
+        return "char"
+    if shape == "str":
+        return "&str"
     if shape[0] == "enum":
         return f"(usize, {tyname(shape[1])})"
     return f"({tyname(shape[1])}, {tyname(shape[2])})"
@@ -41,6 +49,9 @@ SOURCES = [
     ("range_inc", "a..=b", "(a..=b)", "(a..=b).rev()", "u16", True, True),
     ("iter_copied", "konst::slice::iter_copied(xs)", "xs.iter().copied()", "xs.iter().copied().rev()", "u16", True, True),
     ("slice_iter_fn", "konst::slice::iter(xs)", "xs.iter()", "xs.iter().rev()", "&u16", True, True),
+    # string iterators as DSL sources (items: char); `st` is a string built from the input array (a, b, c, f / ñ)
+    ("chars", "konst::string::chars(st)", "st.chars()", "st.chars().rev()", "char", True, False),
+    ("split", "konst::string::split(st, 'b')", "st.split('b')", "st.rsplit('b')", "str", True, False),
 ]
 
 ADAPTERS = ["map", "filter", "filter_map", "flat_map", "mapflatten", "copied", "enumerate", "rev",
@@ -399,6 +410,7 @@ def render(progs):
             lines.append(f"// {p['desc']}")
             lines.append(f"fn p{p['id']}(xs: &[u16]) -> Res {{")
             lines.append("    let (a, b) = ab(xs);")
+            lines.append("    let st_owned: String = xs.iter().map(|x| char::from(b'a' + (*x as u8))).collect(); let st: &str = &st_owned;")
             lines.append(f"    let k = cu(|| {p['k']});")
             lines.append(f"    let s = cu(|| {p['s']});")
             lines.append(f"    let h = {('Some(cu(|| ' + p['h'] + '))') if p['h'] else 'None'};")
